@@ -80,6 +80,13 @@ def gen_history(rng):
             hist.append(("push(%s, %d); puts(len(%s));" % (pick(arrs), k, arrs[-1] if False else pick(arrs)), "ok"))
         elif c < 0.84:
             hist.append((rng.choice(["let = 5", "puts(", "1 +", "let x%d 5;" % k, "fn (a { }", "if { }", "\"unterminated", "x%d: 1" % k]), "parse"))
+        elif c < 0.93 and rng.random() < 0.25:
+            # rejected for its size (operand limit) after definitions that compiled fine
+            nm = pick(names)
+            hist.append((rng.choice(["let big%d = 2; let %s = 3; puts(%s);" % (k, nm, ", ".join("1" for _ in range(256))),
+                                      "let big%d = 5; %s = 6; fn many%d(%s) { 0 }" % (k, nm, k, ", ".join("q%d" % i for i in range(300))),
+                                      "let %s = 7; fn big%d() { 1 } puts(%s);" % (nm, k, ", ".join("2" for _ in range(300)))]), "compile"))
+            ghosts.append("big%d" % k)
         elif c < 0.93:
             nm = pick(names)
             hist.append((rng.choice(["zz%d" % k, "let n%d = zz;" % k, "let %s = zz;" % nm, "break;", "fn g%d() { zz }" % k, "puts(%s); zz" % nm,
